@@ -32,6 +32,10 @@ type HubScenario struct {
 	Offline   int     `json:"offline"`    // endpoint 0 or 1
 	First     int     `json:"first"`      // whose proposal is sent first
 	HProposes [2]bool `json:"hproposes"`
+	// Parts3: the virtual channel has a third participant (a further key of the
+	// adversary); the proposals stay self-consistent and matching: the hub
+	// stands in for participant 2 in ledger channel 0, endpoint 1 in channel 1
+	Parts3 bool `json:"parts3,omitempty"`
 }
 
 // HubCase is a batch of concurrent hub scenarios.
@@ -48,6 +52,7 @@ func drawHubCase(t *rapid.T) HubCase {
 			Offline:   rapid.IntRange(0, 1).Draw(t, "offline"),
 			First:     rapid.IntRange(0, 1).Draw(t, "first"),
 			HProposes: [2]bool{rapid.Bool().Draw(t, "hp0"), rapid.Bool().Draw(t, "hp1")},
+			Parts3:    rapid.IntRange(0, 2).Draw(t, "parts3") == 0,
 		})
 	}
 	return c
@@ -100,14 +105,42 @@ func runHubScenario(sc HubScenario, idx int, o *h.Outcome, omu *sync.Mutex) *h.F
 			func(*channel.State, client.ChannelUpdate, *client.UpdateResponder) {})
 	}
 	// the virtual channel between the two endpoints
-	vparams := channel.NewParamsUnsafe(10, []map[wallet.BackendID]wallet.Address{{0: M[0].Acc.Address()}, {0: M[1].Acc.Address()}},
-		channel.NoApp(), big.NewInt(880000+int64(idx)), false, true, channel.ZeroAux)
-	mkV := func(b [2]uint64, version uint64, final bool) channel.SignedState {
-		st := &channel.State{ID: vparams.ID(), Version: version, App: channel.NoApp(), Data: channel.NoData(), IsFinal: final,
-			Allocation: *sim.MakeAlloc([]uint64{100}, [][2]*big.Int{{bal(b[0]), bal(b[1])}})}
-		return channel.SignedState{Params: vparams, State: st, Sigs: []wallet.Sig{M[0].SignState(st), M[1].SignState(st)}}
+	vparts := []map[wallet.BackendID]wallet.Address{{0: M[0].Acc.Address()}, {0: M[1].Acc.Address()}}
+	signers := []*sim.Party{M[0], M[1]}
+	if sc.Parts3 {
+		M3 := mk("M3")
+		if err != nil {
+			return h.Failf("harness", "parties: %v", err)
+		}
+		vparts = append(vparts, map[wallet.BackendID]wallet.Address{0: M3.Acc.Address()})
+		signers = append(signers, M3)
+		class("hub:virtual-channel-with-3-participants")
 	}
-	vb := [2]uint64{3, 4}
+	vparams := channel.NewParamsUnsafe(10, vparts, channel.NoApp(), big.NewInt(880000+int64(idx)), false, true, channel.ZeroAux)
+	mkV := func(b []uint64, version uint64, final bool) channel.SignedState {
+		row := make([]channel.Bal, len(vparts))
+		for i := range row {
+			row[i] = bal(b[i])
+		}
+		al := sim.MakeAlloc([]uint64{100}, [][2]*big.Int{{bal(0), bal(0)}})
+		al.Balances[0] = row
+		st := &channel.State{ID: vparams.ID(), Version: version, App: channel.NoApp(), Data: channel.NoData(), IsFinal: final, Allocation: *al}
+		sigs := make([]wallet.Sig, len(signers))
+		for i, p := range signers {
+			sigs[i] = p.SignState(st)
+		}
+		return channel.SignedState{Params: vparams, State: st, Sigs: sigs}
+	}
+	// (with three participants the middle one holds nothing: the library's
+	// balance remapping does not add up two participants mapped to one index)
+	vb := []uint64{3, 4}
+	if len(vparts) == 3 {
+		vb = []uint64{3, 0, 4}
+	}
+	vsum := uint64(0)
+	for _, x := range vb {
+		vsum += x
+	}
 	v0 := mkV(vb, 0, false)
 	offline := func(i int) {
 		// the endpoint's client goes away; its address is not reachable any more
@@ -138,13 +171,18 @@ func runHubScenario(sc HubScenario, idx int, o *h.Outcome, omu *sync.Mutex) *h.F
 			return nil
 		}
 		hI, mI := int(hch[i].Idx()), int(mch[i].Idx())
-		imap := make([]channel.Index, 2)
+		imap := make([]channel.Index, len(vparts))
 		imap[i], imap[1-i] = channel.Index(mI), channel.Index(hI)
+		if len(vparts) == 3 {
+			// the hub stands in for participant 2 in ledger channel 0; endpoint 1 pays for it in channel 1
+			imap[2] = channel.Index([]int{hI, mI}[i])
+		}
 		s := cur.Clone()
 		s.Version++
-		s.Balances[0][mI] = new(big.Int).Sub(s.Balances[0][mI], bal(vb[i]))
-		s.Balances[0][hI] = new(big.Int).Sub(s.Balances[0][hI], bal(vb[1-i]))
-		s.AddSubAlloc(*channel.NewSubAlloc(vparams.ID(), []channel.Bal{bal(vb[0] + vb[1])}, imap))
+		for v, p := range imap {
+			s.Balances[0][p] = new(big.Int).Sub(s.Balances[0][p], bal(vb[v]))
+		}
+		s.AddSubAlloc(*channel.NewSubAlloc(vparams.ID(), []channel.Bal{bal(vsum)}, imap))
 		return &client.VirtualChannelFundingProposalMsg{
 			ChannelUpdateMsg: client.ChannelUpdateMsg{ChannelUpdate: client.ChannelUpdate{State: s, ActorIdx: channel.Index(mI)}, Sig: M[i].SignState(s)},
 			Initial:          v0, IndexMap: imap}
@@ -180,7 +218,11 @@ func runHubScenario(sc HubScenario, idx int, o *h.Outcome, omu *sync.Mutex) *h.F
 	class(fmt.Sprintf("hub:funded-on-%d-channels", funded))
 	// ---- settlement
 	if funded == 2 && sc.OfflineAt != "fund" {
-		fin := mkV([2]uint64{5, 2}, 1, true)
+		fb := []uint64{5, 2}
+		if len(vparts) == 3 {
+			fb = []uint64{5, 0, 2}
+		}
+		fin := mkV(fb, 1, true)
 		if sc.OfflineAt == "settle" {
 			offline(sc.Offline)
 			class("hub:endpoint-offline-at-settlement")
